@@ -125,14 +125,43 @@ def mol_label(a, b):
             and bool(a.get('aromatic', False)) == bool(b.get('aromatic', False)))
 
 
-def find_iso(G, H, node_match):
+class _IsoTimeout(BaseException):      # not an Exception: it must pass the `except Exception` of the impl_* bodies
+    pass
+
+
+def _wl_hash(G, label):
+    H = nx.Graph()
+    for n, d in G.nodes(data=True):
+        H.add_node(n, l=label(d))
+    for u, v, d in G.edges(data=True):
+        H.add_edge(u, v, o=str(d.get('order')))
+    return nx.weisfeiler_lehman_graph_hash(H, node_attr='l', edge_attr='o', iterations=4)
+
+
+def find_iso(G, H, node_match, label=None, limit=30):
+    """an isomorphism G -> H as a list of pairs, or None.  Cheap invariants first (sizes, Weisfeiler-Lehman hash
+    over node labels and bond orders: different hashes = not isomorphic); VF2 only afterwards, under a time limit --
+    on two large non-isomorphic, highly symmetric molecules VF2 can run for hours.  Raises _IsoTimeout then (the
+    case is left undecided and skipped)."""
     if len(G) != len(H) or G.number_of_edges() != H.number_of_edges():
+        return None
+    if label is not None and _wl_hash(G, label) != _wl_hash(H, label):
         return None
     gm = nx.algorithms.isomorphism.GraphMatcher(G, H, node_match=node_match,
                                                 edge_match=lambda a, b: a.get('order') == b.get('order'))
-    if gm.is_isomorphic():
-        return [[k, v] for k, v in gm.mapping.items()]
-    return None
+
+    def on_alarm(*_):
+        raise _IsoTimeout()
+    import signal
+    old = signal.signal(signal.SIGALRM, on_alarm)
+    signal.alarm(limit)
+    try:
+        if gm.is_isomorphic():
+            return [[k, v] for k, v in gm.mapping.items()]
+        return None
+    finally:
+        signal.alarm(0)
+        signal.signal(signal.SIGALRM, old)
 
 
 class Recorder:
@@ -193,7 +222,7 @@ class C08(common.Prop):
     id = 'C08'
     level = 'proof'
     technique = ('Coq theorems about the format_bonding definition regenerated from write_cgsmiles.py (exact output, '
-                 'single descriptor, refutation for mixed orders, partial round trip) + Coq model of '
+                 'descriptor round trip through the strip model, coarse fragment chains through the model of read_fragment_cgsmiles) + Coq model of '
                  'write_graph/write_cgsmiles_fragments/write_cgsmiles compared with the implementation on every run; '
                  'round-trip clauses evaluated in Coq on the implementation\'s outputs with isomorphism witnesses')
     vo_deps = ['theories/Write/FragCheck.vo']
@@ -311,6 +340,13 @@ class C08(common.Prop):
 
     # ---------------------------------------------------------------------------- implementation
     def run_impl(self, case):
+        try:
+            return self._run_impl(case)
+        except _IsoTimeout:
+            # VF2 did not decide within its time limit (equal sizes and Weisfeiler-Lehman hashes): undecided, skipped
+            return {'skip': 'iso_timeout'}
+
+    def _run_impl(self, case):
         kind = case['kind']
         if kind == 'fb':
             return self.impl_fb(case)
@@ -419,7 +455,8 @@ class C08(common.Prop):
             try:
                 mol2 = MoleculeResolver.from_string(out['s'], last_all_atom=aa).resolve_all()[1]
                 out['mol2'] = ser_graph(mol2)
-                w = find_iso(mol1, mol2, mol_label)
+                w = find_iso(mol1, mol2, mol_label,
+                             label=lambda d: '%s|%s|%s' % (d.get('element'), d.get('charge', 0), bool(d.get('aromatic', False))))
                 if w:
                     out['wit'] = w
             except Exception as exc:
